@@ -56,7 +56,7 @@ func ZZ_C08_plan_within_quota() {
 	}
 	// existing interfaces: at most as many per type as the flavor declares
 	node.Status.NetworkInterfaces = map[string]*networkv1beta1.NetworkInterface{}
-	exist := zz.Fork("existing", 2+zz.Tier())
+	exist := zz.Fork("existing", 2) // 0..1 existing interfaces (two did not finish in the thorough budget)
 	maxIPs := 2 // addresses per family on an existing interface: 0..1 (0..2 did not finish in the thorough budget with two interfaces)
 	haveSec, haveTrunk := 0, 0
 	for i := 0; i < exist; i++ {
@@ -74,7 +74,7 @@ func ZZ_C08_plan_within_quota() {
 			NetworkInterfaceTrafficMode: networkv1beta1.NetworkInterfaceTrafficModeStandard, IPv4: zzIPMap("e"+is+"v4", n4), IPv6: zzIPMap("e"+is+"v6", n6)}
 	}
 	zz.Assume(haveSec <= nSec && haveTrunk <= nTrunk)
-	toAdd := zz.IntRange("toAdd", 0, 6+6*zz.Tier())
+	toAdd := zz.IntRange("toAdd", 0, 6+2*zz.Tier())
 
 	options := getEniOptions(node)
 	assignEniWithOptions(context.Background(), node, toAdd, options, func(o *eniOptions) bool { return true })
